@@ -116,8 +116,9 @@ def systematic_blocks(p_mod: int = 1, p_rot: int = 0) -> Tuple[List[dict], Dict[
                 if c1 == c2:
                     continue
                 rel = [o for o in obs if pool.related(c1, o) or pool.related(c2, o)]
-                rel.sort(key=lambda o: hashlib.blake2b((c1 + c2 + o).encode(), digest_size=4).digest())
-                for o in rel[:3]:
+                rel.sort(key=lambda o: (not (pool.same_target(c1, o) or pool.same_target(c2, o)),
+                                        hashlib.blake2b((c1 + c2 + o).encode(), digest_size=4).digest()))
+                for o in rel[:4]:
                     hs.append({"ops": [["obs", o], ["cfg", c1], ["obs", o], ["cfg", c2], ["obs", o]],
                                "fault": None, "block": "B"})
                     nb += 1
@@ -157,11 +158,20 @@ def systematic_blocks(p_mod: int = 1, p_rot: int = 0) -> Tuple[List[dict], Dict[
     # observation (e.g. a field validator, then a class aliaser that renames its error location)
     area_of = {c: a for a, names in pool.AREAS.items() for c in names}
     np_ = 0
+    nq = 0
     for o in obs:
         rel = [c for c in cfgs if pool.related(c, o) and "knob" not in pool.TAGS[c]]
         for c1 in rel:
             for c2 in rel:
                 if area_of[c1] == area_of[c2]:
+                    continue
+                # Q (always complete): the two operations share a tag among themselves and at
+                # least one of them names the observed type
+                close = bool(set(pool.TAGS[c1]) & set(pool.TAGS[c2])) and (
+                    pool.same_target(c1, o) or pool.same_target(c2, o))
+                if close:
+                    hs.append({"ops": [["cfg", c1], ["obs", o], ["cfg", c2], ["obs", o]], "fault": None, "block": "Q"})
+                    nq += 1
                     continue
                 if p_mod > 1:
                     hv = int.from_bytes(hashlib.blake2b((c1 + "|" + c2 + "|" + o).encode(), digest_size=4).digest(), "big")
@@ -170,6 +180,7 @@ def systematic_blocks(p_mod: int = 1, p_rot: int = 0) -> Tuple[List[dict], Dict[
                 hs.append({"ops": [["cfg", c1], ["obs", o], ["cfg", c2], ["obs", o]], "fault": None, "block": "P"})
                 np_ += 1
     counts["P"] = np_
+    counts["Q"] = nq
     return hs, counts
 
 
